@@ -63,6 +63,7 @@ def _same_shape(a, b):
 @register
 class Snark(Contract):
     name = "pysnark.runtime:snark.<locals>.snark__"
+    history_ok = False        # its clauses index the whole trace of the run (inputs before, outputs after the body)
     modules = MODS
     cprops = eprops = ()
     sprops = ("C17",)
